@@ -1,0 +1,106 @@
+//go:build verif
+
+package orefafs
+
+import (
+	"fmt"
+	"sort"
+
+	"github.com/avfs/avfs"
+)
+
+// VerifCheck compares the path index with the children maps directly (no locks taken: call it at quiescent
+// points only) and returns the list of broken structural invariants. It is only compiled with the verif build tag.
+func (vfs *OrefaFS) VerifCheck() []string {
+	var bad []string
+
+	sep := string(vfs.PathSeparator())
+
+	rootKey := ""
+	if vfs.OSType() == avfs.OsWindows {
+		rootKey = avfs.DefaultVolume
+	}
+
+	root, ok := vfs.nodes[rootKey]
+	if !ok || root == nil || !root.mode.IsDir() {
+		bad = append(bad, "root entry missing from the index or not a directory")
+	}
+
+	keys := make(map[*node]int)
+
+	for p, nd := range vfs.nodes {
+		if nd == nil {
+			bad = append(bad, "nil node in index at "+p)
+
+			continue
+		}
+
+		keys[nd]++
+
+		if p == rootKey {
+			continue
+		}
+
+		dir, base := avfs.SplitAbs(vfs, p)
+
+		parent, ok := vfs.nodes[dir]
+		if !ok || parent == nil {
+			bad = append(bad, "orphan index entry (parent not indexed): "+p)
+
+			continue
+		}
+
+		if !parent.mode.IsDir() {
+			bad = append(bad, "index entry below a non-directory: "+p)
+
+			continue
+		}
+
+		if parent.children[base] != nd {
+			bad = append(bad, "index entry not listed by its parent (or listed as another node): "+p)
+		}
+
+		if nd == root {
+			bad = append(bad, "root directory is reachable as a child: "+p)
+		}
+	}
+
+	for p, nd := range vfs.nodes {
+		if nd == nil {
+			continue
+		}
+
+		if !nd.mode.IsDir() {
+			if len(nd.children) != 0 {
+				bad = append(bad, "non-directory with children: "+p)
+			}
+
+			continue
+		}
+
+		for name, c := range nd.children {
+			cp := p + sep + name
+			if vfs.nodes[cp] != c {
+				bad = append(bad, "child listed by its parent but not indexed under its path: "+cp)
+			}
+		}
+	}
+
+	for nd, n := range keys {
+		if nd.mode.IsDir() {
+			if n != 1 {
+				bad = append(bad, fmt.Sprintf("directory id %d reachable by %d paths", nd.id, n))
+			}
+
+			continue
+		}
+
+		if nd.nlink != n {
+			bad = append(bad, fmt.Sprintf("file id %d: nlink=%d but %d index entries point at it", nd.id, nd.nlink, n))
+		}
+	}
+
+	sort.Strings(bad)
+
+	return bad
+}
